@@ -60,8 +60,9 @@ property that owns the broken clause:
 BYDESIGN_LIST
 %d were caught by the checks as built; %d were missed by the first version of the aimed check and led to the
 strengthenings listed in `seeded/RESULTS.md` (%d of those were caught from the start by a neighbouring check).
-First misses per round: %s. The share did not fall quickly, which is the honest measure of what remains: another
-author would again find dimensions the generators hold fixed. The misses fell into three classes:
+First misses per round: %s. The share fell only slowly, which is the honest measure of what remains: another author
+would still find dimensions the generators hold fixed (and in the later rounds more and more seeds broke a clause
+that another property owns — those are listed above and are caught there). The misses fell into three classes:
 
 1. a dimension of the input space that the generator held fixed — argument order, labels and argument shapes in
    C19, option spelling in C18, where coupling is declared in C12, `T` only outside placeholders in C05, `c − e`
